@@ -73,6 +73,8 @@ class QRun:
         self.plan = plan
         reset()
         self.world = W.World(plan["world"])
+        self.other = W.OtherContext()          # a second contextvars.Context, mode None there
+        W.OTHER = self.other
         self.pool = Pool(self.world, plan["pool"], stream_faults=stream_faults)
         self.extensions: List[tuple] = []      # (qid, predicate name, literal) added to queries after building
         self.slots: Dict[str, Slot] = {}
@@ -83,6 +85,11 @@ class QRun:
         sys.unraisablehook = self._unraisable
 
     def finish(self):
+        try:
+            self.other.leave()
+        except Exception:
+            pass
+        W.OTHER = None
         sys.unraisablehook = self._prev_hook
 
     def _unraisable(self, u):
